@@ -231,7 +231,13 @@ impl RoutingTable {
 
     /// Get `limit` closest peers to `target` from the k-buckets.
     pub fn closest<K: Clone>(&mut self, target: &Key<K>, limit: usize) -> Vec<KademliaPeer> {
+        // `ClosestBucketsIter` yields bucket 0 twice in a row when the lowest bit of the distance
+        // is set (or the distance is zero). Skip the repeated index so that a peer stored in
+        // bucket 0 is not returned twice.
+        let mut previous = None;
+
         ClosestBucketsIter::new(self.local_key.distance(&target))
+            .filter(|index| previous.replace(*index) != Some(*index))
             .flat_map(|index| self.buckets[index.get()].closest_iter(target))
             .take(limit)
             .cloned()
@@ -324,6 +330,10 @@ impl Iterator for ClosestBucketsIter {
         }
     }
 }
+
+#[cfg(litep2p_verif)]
+#[path = "../../../verif/c14.rs"]
+pub(crate) mod verif_c14;
 
 #[cfg(test)]
 mod tests {
